@@ -85,7 +85,17 @@ enum Entry<C> {
 pub struct VersionedOperation<V> {
     op: Operation<V>,
     epoch: Epoch,
+
+    /// Order in which the operations were issued. Operations of one write
+    /// batch share an epoch, and the heap does not keep arrival order, so
+    /// this is what tells a `remove` followed by an `insert` of the same
+    /// element from the opposite.
+    sequence: u64,
 }
+
+/// Source of [`VersionedOperation::sequence`].
+static STAGING_SEQUENCE: std::sync::atomic::AtomicU64 =
+    std::sync::atomic::AtomicU64::new(0);
 
 impl<V> Eq for VersionedOperation<V> {}
 
@@ -180,17 +190,21 @@ impl<V: Eq + Hash + Clone> ConcurrentLog<V> {
         let mut added = HashSet::with_hasher(FxBuildHasher::default());
         let mut removed = HashSet::with_hasher(FxBuildHasher::default());
 
-        for op in log.iter() {
+        // The heap iterates in no particular order, but the net effect of the
+        // staged operations on an element is decided by the *latest* operation
+        // on it: replay them in the order they were issued.
+        let mut ordered = log.iter().collect::<Vec<_>>();
+        ordered.sort_unstable_by_key(|op| (op.epoch, op.sequence));
+
+        for op in ordered {
             match &op.op {
                 Operation::Insert(v) => {
-                    if removed.remove(v).not() {
-                        added.insert(v.clone());
-                    }
+                    removed.remove(v);
+                    added.insert(v.clone());
                 }
                 Operation::Remove(v) => {
-                    if added.remove(v).not() {
-                        removed.insert(v.clone());
-                    }
+                    added.remove(v);
+                    removed.insert(v.clone());
                 }
             }
         }
@@ -534,7 +548,11 @@ impl<
         // apply the operation to the log
         {
             log.apply_message(ConcurrentLogMessage::AppendOperation(
-                VersionedOperation { op: op.clone(), epoch },
+                VersionedOperation {
+                    op: op.clone(),
+                    epoch,
+                    sequence: STAGING_SEQUENCE.fetch_add(1, Ordering::SeqCst),
+                },
             ));
         }
 
